@@ -1,5 +1,5 @@
 use crate::distributions::*;
-use crate::functions::binom_coeff;
+use crate::functions::{binom_coeff, ln_gamma};
 
 /// Implements the [Binomial](https://en.wikipedia.org/wiki/https://en.wikipedia.org/wiki/Binomial_distribution)
 /// distribution with trials `n` and probability of success `p`.
@@ -267,9 +267,26 @@ impl Discrete for Binomial {
     /// distribution at `k`.
     ///
     fn pmf(&self, k: i64) -> f64 {
-        binom_coeff(self.n, k as u64) as f64
-            * self.p.powi(k as i32)
-            * (1. - self.p).powi((self.n - k as u64) as i32)
+        if k < 0 || k as u64 > self.n {
+            return 0.;
+        }
+        if self.n <= 60 {
+            // the binomial coefficient fits in a u64
+            return binom_coeff(self.n, k as u64) as f64
+                * self.p.powi(k as i32)
+                * (1. - self.p).powi((self.n - k as u64) as i32);
+        }
+        // large n: work in log space (0^0 = 1 at the end points of p)
+        if self.p == 0. {
+            return if k == 0 { 1. } else { 0. };
+        } else if self.p == 1. {
+            return if k as u64 == self.n { 1. } else { 0. };
+        }
+        let (n, kf) = (self.n as f64, k as f64);
+        (ln_gamma(n + 1.) - ln_gamma(kf + 1.) - ln_gamma(n - kf + 1.)
+            + kf * self.p.ln()
+            + (n - kf) * (-self.p).ln_1p())
+        .exp()
     }
 }
 
